@@ -250,22 +250,25 @@ Fixpoint all_paths_ok (r : jv) (docs : list jv) (ps : list (list string)) : bool
   | p :: q => opt_jv_eqb (get_path p r) (last_def p docs) && all_paths_ok r docs q
   end.
 
-(* case = ((file table, files as given), (leaf paths, stage indices),
-           (user variables reported by the implementation (None: it raised), injected variables per stage)) *)
+(* case = ((file table, files as given),
+           (leaf paths, per stage: the platform stage variables of the package before the files are patched in),
+           (user variables reported by the implementation (None: it raised), platform stage variables afterwards)) *)
 Definition check_case
-  (c : (list (string * jv) * list string) * (list (list string) * list string) * (option jv * list (string * jv))) : bool :=
-  let '((tbl, files), (paths, stages), (impl_uv, impl_inj)) := c in
+  (c : (list (string * jv) * list string) * (list (list string) * list (string * jv)) * (option jv * list (string * jv))) : bool :=
+  let '((tbl, files), (paths, stages), (impl_uv, impl_after)) := c in
   let model := load_variables id_oracle (read_of tbl) files in
   opt_jv_eqb model impl_uv &&
+  opt_jv_eqb (load_variables (@rev _) (read_of tbl) files) impl_uv &&
   match model with
   | None => true
   | Some r =>
       (* the model itself gives every leaf path the value of the last file (given order, with repetitions) *)
       all_paths_ok r (map (read_of tbl) files) paths &&
-      forallb (fun s => match lookup s impl_inj with
-                        | Some d => jv_eqb (JDict (inject_stage r s)) d
-                        | None => false
-                        end) stages
+      forallb (fun sb => match lookup (fst sb) impl_after with
+                         | Some d => jv_eqb (JDict (fold_left (fun acc kv => set_key (fst kv) (snd kv) acc)
+                                                              (inject_stage r (fst sb)) (jdict_of (snd sb)))) d
+                         | None => false
+                         end) stages
   end.
 
 (* ser case = (dictionary, buffer the implementation handed to md5 (None: it raised)) *)
